@@ -408,10 +408,11 @@ def run_c11(ctx: common.Ctx):
                         w_ = getattr(m_, name)
                     except Exception:
                         continue
-                    if isinstance(w_, props_.RepeatedNodeWrapper) and len(w_):
+                    if isinstance(w_, props_.RepeatedNodeWrapper):
                         cands.append((p_, m_, name, w_))
         r.shuffle(cands)
-        for p_, m_, name, w_ in cands[:2]:
+        empties = [c_ for c_ in cands if len(c_[3]) == 0]
+        for p_, m_, name, w_ in [c_ for c_ in cands if len(c_[3])][:2] + empties[:2]:
             def views_now():
                 out = {}
                 for vn in edits.class_props(type(m_)):
@@ -433,6 +434,20 @@ def run_c11(ctx: common.Ctx):
                 continue
             ctx.count('list_copies')
             ops_done = []
+            if len(w_) == 0:
+                # the copy of an EMPTY list is a list of its own too: filling it (with a copy of an item of a sibling
+                # list of the same kind, when there is one) must not write into the document
+                donors = [x for _, m2, n2, w2 in cands if n2 == name and len(w2) for x in w2]
+                try:
+                    if donors:
+                        wc.append(copy.deepcopy(donors[0]))
+                        ops_done.append('append(copy of an item of a sibling list)')
+                except Exception:
+                    pass
+                if views_now() != before_views or treewalk.text_of(f3) != before_text:
+                    ctx.monitor_failure('C11:copy-edit-changed-original', f'appending to deepcopy({p_}.{name}) (an empty list) changed the '
+                                        f'original document', dict(wl, copy_edits=ops_done))
+                continue
             try:
                 item = copy.deepcopy(wc[0])
                 wc.pop(0)
@@ -861,6 +876,9 @@ def run_c15(ctx: common.Ctx):
                     ctx.monitor_failure('C15:field-differs-from-argument', f'{cls.__name__}.from_value({an}={exp!r}): the model reads '
                                         f'{an} = {got!r}', w)
                     break
+            if 'indent_by' in kwargs and hasattr(m, 'indent_by') and m.indent_by != kwargs['indent_by']:
+                ctx.monitor_failure('C15:field-differs-from-argument', f'{cls.__name__}.from_value(indent_by={kwargs["indent_by"]!r}): the model '
+                                    f'reads indent_by = {m.indent_by!r}', w)
             text = treewalk.text_of(m)
             try:
                 g = parser.parse(text, cls)
@@ -884,6 +902,31 @@ def run_c15(ctx: common.Ctx):
             # assembled into a file
             if isinstance(m, tuple(type(x) for x in [m]) ) and cls.__name__ not in ('File',) and hasattr(models.File, 'from_value'):
                 pass
+    # classes that offer from_children only (no from_value): IgnoredLine
+    for raw in ('* Assets', '** sub heading', ': x', '# hash line', '! bang'):
+        try:
+            il = models.IgnoredLine.from_children(models.Ignored.from_raw_text(raw))
+        except Exception as e:
+            ctx.monitor_failure('C15:ctor-raised', f'IgnoredLine.from_children raised {type(e).__name__}: {e}', {'raw': raw})
+            continue
+        ctx.count('from_children_only_constructions')
+        for target, text in ((models.IgnoredLine, treewalk.text_of(il)),):
+            try:
+                g = parser.parse(text, target)
+                got = g.raw_ignored.raw_text if hasattr(g, 'raw_ignored') else treewalk.text_of(g)
+            except Exception as e:
+                ctx.monitor_failure('C15:constructed-text-rejected', f'IgnoredLine.from_children({raw!r}) prints {text!r} which parse() rejects ({type(e).__name__})', {'raw': raw})
+                continue
+            if got != raw or treewalk.wf_problems(il, expect_whole_store=True):
+                ctx.monitor_failure('C15:reparse-content-differs', f'IgnoredLine.from_children({raw!r}) prints {text!r}; the re-parsed ignored text is {got!r}', {'raw': raw})
+        try:
+            f_il = models.File.from_children([il])
+            g = parser.parse(treewalk.text_of(f_il), models.File)
+            got = [treewalk.text_of(d) for d in g.raw_directives]
+            if [x.rstrip('\r\n') for x in got] != [raw]:
+                ctx.monitor_failure('C15:reparse-content-differs', f'a File holding IgnoredLine {raw!r} prints {treewalk.text_of(f_il)!r} and re-parses to {got}', {'raw': raw})
+        except Exception:
+            pass
     # directives assembled into a file
     for k in range(ctx.scale(20, 200)):
         seed = ctx.rng.randrange(1 << 30)
